@@ -249,6 +249,8 @@ def finish(prop, modname, tier, seed, results, explanation, assumptions, trusted
     samples = []
     nviol = 0
     replayed = {}    # key -> number of candidates replayed
+    witnessed_by_key = {}   # vacuity guard per (harness key, obligation): some instance of that harness must reach the obligation on a path the solver proves satisfiable
+    unwitnessed = []
     for r in results:
         for k in ("paths", "obligations", "proved", "by_normal_form"):
             tot[k] += r.get(k, 0) or 0
@@ -265,8 +267,10 @@ def finish(prop, modname, tier, seed, results, explanation, assumptions, trusted
         for u in r.get("unknown", []):
             inconclusive.append((r["label"], "unknown: %s" % (u,)))
         for n, w in (r.get("witnessed") or {}).items():
+            wk = (r["inst"].get("key", r["label"]), n)
+            witnessed_by_key[wk] = witnessed_by_key.get(wk, False) or bool(w)
             if not w:
-                inconclusive.append((r["label"], "no satisfiable path reaches obligation %s (vacuity guard)" % n))
+                unwitnessed.append((r["label"], wk))
         cands = []
         for v in r.get("violations_full", []):
             cands.append(dict(kind="obligation", obligation=v["name"], env=v["env"], detail=v.get("detail"), goal=v.get("goal")))
@@ -294,6 +298,9 @@ def finish(prop, modname, tier, seed, results, explanation, assumptions, trusted
                 known_hits.append((kf, key, path))
             else:
                 violations.append((key, path, c))
+    for lab, wk in unwitnessed:
+        if not witnessed_by_key.get(wk):
+            inconclusive.append((lab, "no satisfiable path reaches obligation %s in any instance of harness %s (vacuity guard)" % (wk[1], wk[0])))
     if post:
         post(results, violations, inconclusive)
     names, shash = src_hash(functions)
@@ -319,6 +326,9 @@ def finish(prop, modname, tier, seed, results, explanation, assumptions, trusted
         not_reproduced=[list(x) for x in not_reproduced[:10]],
         instance_labels=[r["label"] for r in results][:60],
         concrete_witness_instances=[r["label"] for r in results if r.get("concrete")],
+        reachability=dict(rule="vacuity guard per (harness key, obligation name): at least one instance of the harness reaches the obligation on a path whose condition z3 proves satisfiable",
+                          witnessed=sum(1 for v in witnessed_by_key.values() if v), total=len(witnessed_by_key),
+                          instances_without_own_witness=len(unwitnessed)),
     )
     if extra_cov:
         cov.update(extra_cov)
